@@ -31,8 +31,8 @@ DIMS = dict(
 	prefix=['AT', 'A', 'ATGAC'],
 	coll=COLLS,
 	container=['array', 'list', 'annotated-array', 'annotated-list', 'list-mixed-element-dtypes'],
-	ids=['default', 'int64', 'ascii', 'unicode', 'bytes', 'uint8', 'object-array', 'numpy-str-array'],
-	meta=['none', 'unicode', 'nested-extra', 'empty-strings', 'mixed-empty'],
+	ids=['default', 'int64', 'ascii', 'unicode', 'bytes', 'uint8', 'object-array', 'numpy-str-array', 'numeric-strings'],
+	meta=['none', 'unicode', 'nested-extra', 'empty-strings', 'mixed-empty', 'id-attr-ncbi_id', 'id-attr-genbank_acc'],
 	comp=['none', 'gzip0', 'gzip9', 'lzf', 'szip', 'gzip-default'],
 )
 FULL_K = [1, 4, 5, 8, 9, 16, 17, 32]
@@ -86,6 +86,8 @@ def make_ids(kind, n):
 		return [f'génome-{i}-中é' for i in range(n)]
 	if kind == 'bytes':
 		return [f'id{i}'.encode() for i in range(n)]
+	if kind == 'numeric-strings':
+		return [f'{i:07d}' if i % 2 == 0 else str(560 + i) for i in range(n)]       # strings that happen to look like numbers stay strings
 	if kind == 'object-array':
 		return np.array([f'obj-ü{i}' for i in range(n)], dtype=object)
 	if kind == 'numpy-str-array':
@@ -96,6 +98,10 @@ def make_meta(kind):
 	from gambit.sigs.base import SignaturesMeta
 	if kind == 'none':
 		return SignaturesMeta()
+	if kind == 'id-attr-ncbi_id':
+		return SignaturesMeta(id='n', id_attr='ncbi_id')
+	if kind == 'id-attr-genbank_acc':
+		return SignaturesMeta(id='g', id_attr='genbank_acc', version='3')
 	if kind == 'empty-strings':
 		return SignaturesMeta(id='', name='', version='', id_attr='', description='', extra={})
 	if kind == 'mixed-empty':
@@ -240,7 +246,7 @@ def roundtrip(sh, v, d):
 	sh.count('roundtrips')
 	if v['comp'] != 'none':
 		sh.count('compressed')
-	if v['ids'] in ('unicode', 'ascii', 'bytes', 'object-array', 'numpy-str-array'):
+	if v['ids'] in ('unicode', 'ascii', 'bytes', 'object-array', 'numpy-str-array', 'numeric-strings'):
 		sh.count('string_ids')
 	if ks.index_dtype.itemsize == 8 and 't' in v['coll']:
 		sh.count('top_of_uint64_range')
